@@ -96,7 +96,8 @@ def audit(prop: str, thorough=False):
         lines.append(f"#print axioms {n}")
     for n in names:
         lines.append(f"#check @{n}")
-    path = os.path.join(LEAN, f".audit_{prop}.lean")
+    # one file per run: several checks of one property may run at the same time (parallel sweeps, a thorough and a quick run)
+    path = os.path.join(LEAN, f".audit_{prop}_{os.getpid()}.lean")
     with open(path, "w") as f:
         f.write("\n".join(lines) + "\n")
     try:
